@@ -114,43 +114,500 @@ def flow_check(chk, prog, rel, cls, entry="transpose", extra_final=None):
 
 
 # --------------------------------------------------------------------------
+# small syntax helpers shared by the layout/grid checks (C01-C04)
+def clone(node):
+    """private copy of a syntax tree (line numbers kept, parent links set inside the copy): rules that need a rewritten
+    VIEW of a function work on such a copy, never on the module's own tree"""
+    def cp(n):
+        if isinstance(n, list):
+            return [cp(x) for x in n]
+        if not isinstance(n, ast.AST):
+            return n
+        new = type(n)()
+        for f in n._fields:
+            if hasattr(n, f):
+                setattr(new, f, cp(getattr(n, f)))
+        for a in ("lineno", "col_offset", "end_lineno", "end_col_offset"):
+            if hasattr(n, a):
+                setattr(new, a, getattr(n, a))
+        if hasattr(n, "_qual"):
+            new._qual = n._qual
+        return new
+    out = cp(node)
+    link(out)
+    return out
+
+
+def link(root, top=None):
+    for n in ast.walk(root):
+        for ch in ast.iter_child_nodes(n):
+            ch._parent = n
+    if not hasattr(root, "_parent"):
+        root._parent = top
+    return root
+
+
+class ModView:
+    """a module in which some functions are replaced by rewritten (behaviour-preserving) views; everything else is the
+    module itself.  Engines that take a module (`mod.func(q)`, `mod.rel`) can be run on the views."""
+
+    def __init__(self, mod, views):
+        self._mod, self._views = mod, dict(views)
+        self.rel = mod.rel
+
+    def func(self, q):
+        return self._views.get(q) or self._mod.func(q)
+
+    def __getattr__(self, name):
+        return getattr(self._mod, name)
+
+
+def call_args(call, fndef):
+    """parameter name -> argument expression of a call of `fndef` (positional and keyword), or None"""
+    params = [a.arg for a in fndef.args.args]
+    static = any(isinstance(d, ast.Name) and d.id == "staticmethod" for d in fndef.decorator_list)
+    if params and params[0] in ("self", "cls") and not static:
+        params = params[1:]
+    if any(isinstance(a, ast.Starred) for a in call.args) or len(call.args) > len(params):
+        return None
+    m = dict(zip(params, call.args))
+    for k in call.keywords:
+        if k.arg is None or k.arg not in params or k.arg in m:
+            return None
+        m[k.arg] = k.value
+    defaults = dict(zip(params[len(params) - len(fndef.args.defaults):], fndef.args.defaults))
+    for p_ in params:
+        if p_ not in m and p_ in defaults:
+            m[p_] = defaults[p_]
+    return m
+
+
+def xsrc(e, env):
+    """source of an expression with the single-assignment locals of its function written out"""
+    try:
+        return src(expand(e, env))
+    except Exception:
+        return src(e)
+
+
+def _xtext(text, env):
+    try:
+        e = ast.parse(text, mode="eval").body
+    except SyntaxError:
+        return text
+    return xsrc(e, env)
+
+
+def written_out(sl, env):
+    """shape list whose overridden positions and values have their temporaries written out"""
+    out = sl.copy()
+    out.over = {_xtext(k, env): _xtext(v, env) for k, v in sl.over.items()}
+    return out
+
+
+_LAY = r"(?:layout_source|layout_dest|l1|l2)"
+_AX = r"(?:axis\[[012]\]|0)"
+
+
+def _known_factor(text):
+    """is a factor of a block-size product written in the vocabulary the geometry rules understand?"""
+    import re
+    t = text.replace(" ", "")
+    return bool(re.fullmatch(rf"{_LAY}\.(?:max_block_shape|shape|fullShape)\[{_AX}\]", t) or
+                re.fullmatch(rf"{_LAY}\.(?:mpi_lengths|mpi_starts)\({_AX}\)\[\w+\]", t) or
+                re.fullmatch(rf"{_LAY}\.nprocs\[{_AX}\]", t) or
+                re.fullmatch(r"(?:comm|self\._subcomms\[axis\[[012]\]\])\.Get_size\(\)", t) or
+                t in ("mpi_size", "nSplits") or re.fullmatch(r"\d+", t))
+
+
+def _known_product(sl):
+    from ..geometry import _split_mul
+    import re
+    return all(_known_factor(f) for v in sl.over.values() for f in _split_mul(v)) and \
+        all(re.fullmatch(_AX, k.replace(" ", "")) for k in sl.over) and \
+        bool(re.fullmatch(rf"{_LAY}\.shape", sl.base.replace(" ", "")))
+
+
+def _defs(fn, name):
+    return [n for n in ast.walk(fn) if isinstance(n, ast.Assign) and len(n.targets) == 1 and isinstance(n.targets[0], ast.Name)
+            and n.targets[0].id == name]
+
+
+def alternatives(fn, e, depth=4, guards=()):
+    """the values an expression can take where it is used: a local bound by several guarded assignments is replaced by
+    each of its definitions.  -> [([factor expressions of the product], [(test, polarity, kind)])]"""
+    from ..core import guards_of
+    if isinstance(e, ast.Name) and depth > 0:
+        ds = _defs(fn, e.id)
+        others = [n for n in ast.walk(fn) if isinstance(n, (ast.AugAssign, ast.For, ast.comprehension)) and
+                  any(isinstance(x, ast.Name) and x.id == e.id for x in ast.walk(n.target))]
+        scaled = [n for n in others if isinstance(n, ast.AugAssign) and isinstance(n.op, ast.Mult) and isinstance(n.target, ast.Name)]
+        if ds and len(scaled) == len(others):
+            out = []
+            for d in ds:
+                out += alternatives(fn, d.value, depth - 1, tuple(guards) + tuple(guards_of(d)))
+            # `x *= f` under a guard: the value with and without the factor
+            for a in scaled:
+                more = []
+                for fa, ga in out:
+                    for fb, gb in alternatives(fn, a.value, depth - 1, tuple(guards_of(a))):
+                        more.append((fa + fb, list(ga) + [g for g in gb if g not in ga]))
+                out = out + more
+            return out
+        if ds or others:
+            # bound in a way the rule does not follow (loop target, other augmented assignment): an unknown factor
+            return [([ast.Name(id=f"<{e.id}: not followed>", ctx=ast.Load())], list(guards))]
+    if isinstance(e, ast.BinOp) and isinstance(e.op, ast.Mult):
+        out = []
+        for fa, ga in alternatives(fn, e.left, depth, guards):
+            for fb, gb in alternatives(fn, e.right, depth, ()):
+                out.append((fa + fb, list(ga) + [g for g in gb if g not in ga]))
+        return out
+    return [([e], list(guards))]
+
+
+def reaching_def(fn, name, at):
+    """the assignment `name = expr` that dominates statement `at` with no other binding of `name` in between (searched backwards in
+    the block of `at`, then in the enclosing blocks), or None"""
+    cur = at
+    while cur is not None and cur is not fn:
+        par = parent(cur)
+        blk = None
+        for f in ("body", "orelse", "finalbody"):
+            b = getattr(par, f, None)
+            if isinstance(b, list) and any(x is cur for x in b):
+                blk = b
+        if blk is None:
+            return None
+        idx = [i for i, x in enumerate(blk) if x is cur][0]
+        for prev in reversed(blk[:idx]):
+            if isinstance(prev, ast.Assign) and len(prev.targets) == 1 and isinstance(prev.targets[0], ast.Name) and prev.targets[0].id == name:
+                return prev
+            if _stores(prev, name):
+                return None
+        if isinstance(par, (ast.For, ast.While)) and (_stores(par, name)):
+            return None
+        cur = par
+    return None
+
+
+def resolve_at(fn, e, at, keep=(), depth=5):
+    """expression with the locals replaced by their dominating definitions at statement `at` (names in `keep` stay)"""
+    class R(ast.NodeTransformer):
+        def visit_Name(self, node):
+            if isinstance(node.ctx, ast.Load) and node.id not in keep and depth > 0:
+                d = reaching_def(fn, node.id, at)
+                if d is not None:
+                    return resolve_at(fn, d.value, d, keep, depth - 1)
+            return node
+    new = ast.parse(ast.unparse(e), mode="eval").body
+    return ast.fix_missing_locations(R().visit(new))
+
+
+# --------------------------------------------------------------------------
+# behaviour-preserving rewrites applied to a private copy of a function before rules/engines that read statement shapes
+# look at it (the module's own tree is never changed)
+def _blocks_of(node):
+    for n in ast.walk(node):
+        for f in ("body", "orelse", "finalbody"):
+            b = getattr(n, f, None)
+            if isinstance(b, list) and b and isinstance(b[0], ast.stmt):
+                yield n, f, b
+
+
+def _stores(node, name):
+    return any(isinstance(x, ast.Name) and x.id == name and isinstance(x.ctx, (ast.Store, ast.Del)) for x in ast.walk(node))
+
+
+def _occurs(node, name):
+    return any(isinstance(x, ast.Name) and x.id == name for x in ast.walk(node))
+
+
+def fold_none_tests(fn):
+    """`x = None` / `x = tuple(...)` directly followed (no other binding of x in between) by `if x is None:` / `if x is not None:`:
+    the test is known, the statement is the arm that is taken"""
+    changed = True
+    n_done = 0
+    while changed:
+        changed = False
+        for owner, f, blk in list(_blocks_of(fn)):
+            for k, st in enumerate(blk):
+                if not (isinstance(st, ast.If) and isinstance(st.test, ast.Compare) and len(st.test.ops) == 1
+                        and isinstance(st.test.ops[0], (ast.Is, ast.IsNot)) and isinstance(st.test.left, ast.Name)
+                        and isinstance(st.test.comparators[0], ast.Constant) and st.test.comparators[0].value is None):
+                    continue
+                x = st.test.left.id
+                known = None
+                for j in range(k - 1, -1, -1):
+                    prev = blk[j]
+                    if isinstance(prev, ast.Assign) and len(prev.targets) == 1 and isinstance(prev.targets[0], ast.Name) and prev.targets[0].id == x:
+                        v = prev.value
+                        if isinstance(v, ast.Constant) and v.value is None:
+                            known = True
+                        elif isinstance(v, (ast.Tuple, ast.List, ast.ListComp, ast.Dict)) or \
+                                (isinstance(v, ast.Call) and src(v.func) in ("tuple", "list", "slice", "dict", "np.array", "np.empty", "np.zeros")) or \
+                                (isinstance(v, ast.Constant) and v.value is not None):
+                            known = False
+                        break
+                    if _stores(prev, x):
+                        break
+                if known is None:
+                    continue
+                taken = st.body if (known == isinstance(st.test.ops[0], ast.Is)) else st.orelse
+                blk[k:k + 1] = list(taken)
+                if not blk:
+                    blk.append(ast.copy_location(ast.Pass(), st))
+                changed = True
+                n_done += 1
+                break
+            if changed:
+                break
+    return n_done
+
+
+def _ends_flow(blk):
+    return bool(blk) and isinstance(blk[-1], (ast.Return, ast.Raise, ast.Break, ast.Continue))
+
+
+def early_return_to_else(fn):
+    """at the end of a function `if c: A; return` followed by R is `if c: A else: R` (only for value-less returns, in tail position)"""
+    n_done = 0
+
+    def tail(blk):
+        nonlocal n_done
+        for k, st in enumerate(blk):
+            if isinstance(st, ast.If) and st.body and isinstance(st.body[-1], ast.Return) and \
+                    (st.body[-1].value is None or (isinstance(st.body[-1].value, ast.Constant) and st.body[-1].value.value is None)) \
+                    and k + 1 < len(blk) and not any(isinstance(x, ast.Return) and x is not st.body[-1] for b_ in st.body for x in ast.walk(b_)):
+                rest = blk[k + 1:]
+                if any(isinstance(x, (ast.FunctionDef, ast.ClassDef)) for x in rest):
+                    continue
+                del blk[k + 1:]
+                st.body = st.body[:-1] or [ast.copy_location(ast.Pass(), st)]
+                st.orelse = list(st.orelse) + rest
+                n_done += 1
+                break
+        if blk and isinstance(blk[-1], ast.If):
+            tail(blk[-1].body)
+            if blk[-1].orelse:
+                tail(blk[-1].orelse)
+    tail(fn.body)
+    return n_done
+
+
+def duplicate_tail(fn, max_len=4):
+    """`if c: A else: B` followed by a short straight-line tail R that reads a name bound in only one of the arms is
+    `if c: A; R else: B; R` (in tail position of the function)"""
+    n_done = 0
+
+    def tail(blk):
+        nonlocal n_done
+        for k, st in enumerate(blk):
+            rest = blk[k + 1:]
+            if not (isinstance(st, ast.If) and rest and len(rest) <= max_len):
+                continue
+            if not all(isinstance(x, (ast.Assign, ast.Expr, ast.AugAssign, ast.Assert, ast.Pass, ast.Return)) for x in rest):
+                continue
+            bound_a = {x.id for b_ in st.body for x in ast.walk(b_) if isinstance(x, ast.Name) and isinstance(x.ctx, ast.Store)}
+            bound_b = {x.id for b_ in st.orelse for x in ast.walk(b_) if isinstance(x, ast.Name) and isinstance(x.ctx, ast.Store)}
+            partial = bound_a ^ bound_b
+            if not any(isinstance(x, ast.Name) and isinstance(x.ctx, ast.Load) and x.id in partial for r_ in rest for x in ast.walk(r_)):
+                continue
+            if k + 1 + len(rest) != len(blk):
+                continue
+            del blk[k + 1:]
+            if not _ends_flow(st.body):
+                st.body = list(st.body) + [clone(r_) for r_ in rest]
+            if not _ends_flow(st.orelse):
+                st.orelse = [x for x in st.orelse if not isinstance(x, ast.Pass)] + [clone(r_) for r_ in rest]
+            n_done += 1
+            break
+        if blk and isinstance(blk[-1], ast.If):
+            tail(blk[-1].body)
+            if blk[-1].orelse:
+                tail(blk[-1].orelse)
+    tail(fn.body)
+    return n_done
+
+
+class _RenameFrom(ast.NodeTransformer):
+    def __init__(self, old, new):
+        self.old, self.new = old, new
+
+    def visit_Name(self, node):
+        if node.id == self.old:
+            node.id = self.new
+        return node
+
+
+def split_self_updates(fn):
+    """`x = f(x)` at the top level of a block that is not inside a loop, x not used after the block: the new value gets a new
+    name (x__v2) in the rest of the block.  Engines that forget what they know about x when x is rebound then keep both facts."""
+    link(fn)
+    n_done = 0
+    for owner, f, blk in list(_blocks_of(fn)):
+        # not inside a loop
+        p, inside_loop = owner, False
+        while p is not None and p is not fn:
+            if isinstance(p, (ast.For, ast.While)):
+                inside_loop = True
+            p = getattr(p, "_parent", None)
+        if inside_loop or isinstance(owner, (ast.For, ast.While)):
+            continue
+        for k, st in enumerate(blk):
+            if not (isinstance(st, ast.Assign) and len(st.targets) == 1 and isinstance(st.targets[0], ast.Name)):
+                continue
+            x = st.targets[0].id
+            if not any(isinstance(n, ast.Name) and n.id == x for n in ast.walk(st.value)):
+                continue
+            # x must not be read after this block on any continuation
+            live, node, cur_blk = False, owner, blk
+            child = None
+            while True:
+                if child is not None:
+                    idx = next((i for i, s_ in enumerate(cur_blk) if s_ is child), None)
+                    if idx is not None and any(_occurs(s_, x) for s_ in cur_blk[idx + 1:]):
+                        live = True
+                        break
+                if node is fn or node is None:
+                    break
+                child = node
+                par = getattr(node, "_parent", None)
+                cur_blk = None
+                if par is not None:
+                    for f2 in ("body", "orelse", "finalbody"):
+                        b2 = getattr(par, f2, None)
+                        if isinstance(b2, list) and any(s_ is node for s_ in b2):
+                            cur_blk = b2
+                if cur_blk is None:
+                    live = True
+                    break
+                node = par
+            if live:
+                continue
+            new = f"{x}__v{n_done + 2}"
+            if any(isinstance(n, ast.Name) and n.id == new for n in ast.walk(fn)):
+                continue
+            st.targets[0].id = new
+            for j in range(k + 1, len(blk)):
+                blk[j] = _RenameFrom(x, new).visit(blk[j])
+            n_done += 1
+    link(fn)
+    return n_done
+
+
+def normal_view(fn):
+    """private, behaviour-preserving rewrite of a function: known `is None` tests folded, early `return` turned into `else`, a short
+    common tail copied into both arms of the final `if`, `x = f(x)` given a fresh name"""
+    v = clone(fn)
+    v._parent = getattr(fn, "_parent", None)
+    fold_none_tests(v)
+    early_return_to_else(v)
+    duplicate_tail(v)
+    split_self_updates(v)
+    ast.fix_missing_locations(v)
+    link(v)
+    v._parent = getattr(fn, "_parent", None)
+    return v
+
+
+# --------------------------------------------------------------------------
+def _block_size_var(flow, prefer="size"):
+    """the `x = np.prod(<shape list>)` that is the size of the block the function cuts from its flat buffer: the name used as the
+    extent of a cut (`buf[a:a+x]`, `np.split(buf, [x])`), else the reference name"""
+    used = []
+    for n in ast.walk(flow.fn):
+        if isinstance(n, ast.Call) and src(n.func) in ("np.split", "numpy.split") and len(n.args) >= 2 and isinstance(n.args[1], ast.List) \
+                and len(n.args[1].elts) == 1 and isinstance(n.args[1].elts[0], ast.Name):
+            used.append(n.args[1].elts[0].id)
+        if isinstance(n, ast.Subscript) and isinstance(n.slice, ast.Slice) and n.slice.upper is not None:
+            up = n.slice.upper
+            if isinstance(up, ast.Name):
+                used.append(up.id)
+            elif isinstance(up, ast.BinOp) and isinstance(up.op, ast.Add):
+                used += [x.id for x in (up.left, up.right) if isinstance(x, ast.Name)]
+    cands = [u for u in dict.fromkeys(used) if u in flow.prods]
+    if len(cands) == 1:
+        return cands[0]
+    if prefer in flow.prods and (not cands or prefer in cands):
+        return prefer
+    return None
+
+
+def _canon(sl, mapping=None):
+    return canon_product(sl, mapping or {})
+
+
 def geometry_check(chk, mod):
+    import sympy
+    from ..core import increment_of, same_expr
     rel = mod.rel
-    pack = mod.func("LayoutHandler._extract_from_source")
-    unpack = mod.func("LayoutHandler._rearrange_from_buffer")
-    init = mod.func("LayoutHandler.__init__")
-    for q in ("LayoutHandler._extract_from_source", "LayoutHandler._rearrange_from_buffer", "LayoutHandler.__init__"):
+    QP, QU, QI = "LayoutHandler._extract_from_source", "LayoutHandler._rearrange_from_buffer", "LayoutHandler.__init__"
+    pack, unpack, init = mod.func(QP), mod.func(QU), mod.func(QI)
+    for q in (QP, QU, QI):
         chk.functions.add(f"{rel}:{q}")
     fp, fu, fi = ShapeFlow(pack), ShapeFlow(unpack), ShapeFlow(init)
-    # packer: the block size used to advance through the send buffer
-    if "size" not in fp.prods:
-        raise AnalysisError("C01-G1: block size `size = np.prod(<shape list>)` not found in _extract_from_source")
-    if "size" not in fu.prods:
-        raise AnalysisError("C01-G1: transfer size `size = np.prod(<shape list>)` not found in _rearrange_from_buffer")
-    envu = inline_locals(unpack)
-    mpi = envu.get("mpi_size")
-    chk.ob("G1-mpi-size-is-comm-size", unpack, "mpi_size", mpi is not None and src(mpi) == "comm.Get_size()",
-           "mpi_size is the size of the communicator the exchange runs on", file=rel,
-           func="LayoutHandler._rearrange_from_buffer")
-    P = canon_product(fp.prods["size"][0], {})
-    Uu = canon_product(fu.prods["size"][0], {})
-    import sympy
-    msz = sympy.Symbol("mpi_size")
-    ok = P[0] == Uu[0] and P[1] == Uu[1] and sympy.expand(P[2] * msz - Uu[2]) == 0
-    chk.ob("G1-geometry-pack-vs-unpack", unpack, "size = np.prod(source_shape)", ok,
-           "Alltoall transfer size = (packed block size) x (communicator size), same base layout and overridden axes"
-           if ok else f"packer block {P} x mpi_size != unpacker transfer {Uu}", file=rel,
-           func="LayoutHandler._rearrange_from_buffer", facts={"packer": str(P), "unpacker": str(Uu)})
+    envp, envu = inline_locals(pack), inline_locals(unpack)
+    envi = {k: v for k, v in inline_locals(init).items() if k != "axis"}      # `axis[k]` keeps its name: the rules speak about it
+    # packer: the block size used to advance through the send buffer; unpacker: the size of the exchanged chunk
+    vp, vu = _block_size_var(fp), _block_size_var(fu)
+    if vp is None or vu is None:
+        where = QP if vp is None else QU
+        chk.ob("G1-geometry-pack-vs-unpack", pack if vp is None else unpack, "size = np.prod(<shape list>)", None,
+               f"the block size is no longer computed as `np.prod(<list(L.shape) with overridden entries>)` in {where.split('.')[-1]}: "
+               "the shape-list comparison cannot be made", file=rel, func=where)
+        P = Uu = None
+    else:
+        slp, slu = written_out(fp.prods[vp][0], envp), written_out(fu.prods[vu][0], envu)
+        P, Uu = _canon(slp), _canon(slu)
+        # mpi_size is the size of the communicator the exchange runs on
+        mpi = envu.get("mpi_size")
+        recv = [c for c in ast.walk(unpack) if isinstance(c, ast.Call) and isinstance(c.func, ast.Attribute) and c.func.attr == "Alltoall"]
+        comm_of_exchange = src(recv[0].func.value) if len(recv) == 1 else None
+        okm, badm = None, None
+        if mpi is not None and isinstance(mpi, ast.Call) and isinstance(mpi.func, ast.Attribute) and mpi.func.attr == "Get_size" and not mpi.args:
+            who = xsrc(mpi.func.value, envu)
+            if comm_of_exchange is not None and who == xsrc(recv[0].func.value, envu):
+                okm = True
+            elif comm_of_exchange is not None:
+                badm = (f"mpi_size is the size of `{who}` but the exchange runs on `{comm_of_exchange}`: the number of blocks that are "
+                        "received differs from the number the buffer view and the unpack loop assume")
+        elif mpi is None and "mpi_size" not in {n.id for n in ast.walk(unpack) if isinstance(n, ast.Name)}:
+            okm = True if comm_of_exchange is not None else None      # written out in place: covered by the product comparison
+        chk.pat("G1-mpi-size-is-comm-size", unpack, "mpi_size = comm.Get_size()", okm,
+                "mpi_size is the size of the communicator the exchange runs on", badm, file=rel, func=QU)
+        msz = sympy.Symbol("comm.Get_size()")
+        ok = P[0] == Uu[0] and P[1] == Uu[1] and sympy.expand(P[2] * msz - Uu[2]) == 0
+        bad = None
+        if not ok and _known_product(slp) and _known_product(slu):
+            if P[0] != Uu[0]:
+                bad = f"the packer's block is built from `{P[0]}`, the exchanged chunk from `{Uu[0]}`: different local shapes"
+            elif P[1] != Uu[1]:
+                bad = (f"the packer pads positions {sorted(P[1])} of the block, the unpacker positions {sorted(Uu[1])}: the chunk that is "
+                       "exchanged is not (communicator size) x (packed block)")
+            else:
+                bad = (f"packed block extents {P[2]} x communicator size != exchanged chunk extents {Uu[2]}: sender and receiver "
+                       "disagree on the size/padding of a block, elements land in the wrong block")
+        chk.pat("G1-geometry-pack-vs-unpack", unpack, "size = np.prod(source_shape)", ok,
+                "Alltoall transfer size = (packed block size) x (communicator size), same base layout and overridden axes",
+                bad, file=rel, func=QU, facts={"packer": str(P), "unpacker": str(Uu)})
     # the packer advances by exactly one block per destination rank: `start += size` per iteration, or start = k*size
-    from ..core import increment_of, same_expr
-    adv = [increment_of(n) for n in ast.walk(pack) if isinstance(n, (ast.Assign, ast.AugAssign)) and increment_of(n) and increment_of(n)[0] == "start"]
-    okadv, whyadv = None, "how the packer advances through the send buffer was not recognised"
-    if len(adv) == 1:
-        okadv = src(adv[0][1]) == "size"
-        whyadv = "packer advances by one block per destination rank" if okadv else \
-            f"packer advances by `{src(adv[0][1])}` per destination rank, not by the block size `size`"
-    elif not adv:
-        sets = [n for n in ast.walk(pack) if isinstance(n, ast.Assign) and src(n.targets[0]) == "start" and isinstance(n.value, ast.BinOp)
+    adv = [increment_of(n) for n in ast.walk(pack) if isinstance(n, (ast.Assign, ast.AugAssign)) and increment_of(n)]
+    views = [n for n in ast.walk(pack) if isinstance(n, ast.Subscript) and isinstance(n.slice, ast.Slice) and isinstance(n.value, ast.Name)
+             and n.value.id == "tobuffer" and n.slice.lower is not None]
+    startv = views[0].slice.lower.id if views and isinstance(views[0].slice.lower, ast.Name) else "start"
+    adv = [a for a in adv if a[0] == startv]
+    okadv, badadv = None, None
+    if vp is not None and len(adv) == 1:
+        inc = adv[0][1]
+        incx = xsrc(inc, {k: v for k, v in envp.items() if k != vp})
+        if incx == vp:
+            okadv = True
+        elif (isinstance(inc, ast.Name) and inc.id in fp.prods) or ".size" in incx or "max_block_size" in incx:
+            badadv = (f"the packer advances by `{src(inc)}` per destination rank, not by the size `{vp}` of the block it has just written: "
+                      "the blocks overlap or leave gaps in the send buffer, which the Alltoall cuts into equal chunks of the block size")
+    elif vp is not None and not adv:
+        sets = [n for n in ast.walk(pack) if isinstance(n, ast.Assign) and src(n.targets[0]) == startv and isinstance(n.value, ast.BinOp)
                 and isinstance(n.value.op, ast.Mult)]
         lp_idx = set()
         for lp_ in [n for n in ast.walk(pack) if isinstance(n, ast.For)]:
@@ -159,27 +616,39 @@ def geometry_check(chk, mod):
             if isinstance(lp_.iter, ast.Call) and src(lp_.iter.func) == "enumerate" and isinstance(lp_.target, ast.Tuple) \
                     and isinstance(lp_.target.elts[0], ast.Name):
                 lp_idx.add(lp_.target.elts[0].id)
-        if len(sets) == 1 and any(same_expr(sets[0].value, f"{k} * size") for k in lp_idx):
-            okadv, whyadv = True, "block k of the send buffer starts at k x block size"
-    chk.ob("G1-packer-advance", pack, "start += size", okadv, whyadv, file=rel, func="LayoutHandler._extract_from_source")
+        if len(sets) == 1 and any(same_expr(sets[0].value, f"{k} * {vp}") for k in lp_idx):
+            okadv = True
+    chk.pat("G1-packer-advance", pack, "start += size", okadv,
+            "the packer advances by one block per destination rank (block k of the send buffer starts at k x block size)", badadv,
+            file=rel, func=QP)
 
     # which per-rank tables the packer and the unpacker read
     def tables(fn_):
         return [n for n in ast.walk(fn_) if isinstance(n, ast.Call) and isinstance(n.func, ast.Attribute)
                 and n.func.attr in ("mpi_lengths", "mpi_starts")]
-    for fn_, q_, lay_, rule, what in ((pack, "LayoutHandler._extract_from_source", "layout_dest", "G1-packer-table",
-                                       "packer splits the source block by the destination layout's lengths/starts along the swapped process axis"),
-                                      (unpack, "LayoutHandler._rearrange_from_buffer", "layout_source", "G1-unpacker-table",
-                                       "unpacker places each received block by the source layout's lengths/starts along axis[0]")):
+    for fn_, q_, lay_, other_, rule, what, env_ in (
+            (pack, QP, "layout_dest", "layout_source", "G1-packer-table",
+             "packer splits the source block by the destination layout's lengths/starts along the swapped process axis", envp),
+            (unpack, QU, "layout_source", "layout_dest", "G1-unpacker-table",
+             "unpacker places each received block by the source layout's lengths/starts along axis[0]", envu)):
         tb = tables(fn_)
-        wrong = [src(n) for n in tb if src(n.func.value) != lay_ or not n.args or src(n.args[0]) != "axis[0]"]
+        wrong, unknown = [], []
+        for n in tb:
+            who, arg = xsrc(n.func.value, env_), (xsrc(n.args[0], env_) if len(n.args) == 1 else None)
+            if who == lay_ and arg == "axis[0]":
+                continue
+            if who == other_:
+                wrong.append(f"`{src(n)}` reads the table of {other_}: the blocks are cut by {lay_}'s partition")
+            elif who == lay_ and arg in ("axis[1]", "axis[2]"):
+                wrong.append(f"`{src(n)}` reads the table of layout axis {arg}: the axis that is distributed is the process axis axis[0]")
+            else:
+                unknown.append(src(n))
         kinds = {n.func.attr for n in tb}
-        okt = False if wrong else (True if kinds == {"mpi_lengths", "mpi_starts"} else None)
-        chk.ob(rule, tb[0] if tb else fn_, f"mpi_lengths/mpi_starts of {lay_} along axis[0]", okt,
-               what if okt else (f"per-rank tables taken from {wrong}: not the {lay_} tables of the swapped process axis" if wrong else
-                                 "per-rank lengths/starts tables not found"), file=rel, func=q_)
+        okt = not wrong and not unknown and kinds == {"mpi_lengths", "mpi_starts"}
+        chk.pat(rule, tb[0] if tb else fn_, f"mpi_lengths/mpi_starts of {lay_} along axis[0]", okt, what,
+                "; ".join(wrong) or None, file=rel, func=q_)
     # received blocks sit at a uniform, padded stride in the receive buffer (as the packer laid them out), whatever their true length
-    envu2 = inline_locals(unpack)
+    envu2 = envu
     lp_r = [n for n in ast.walk(unpack) if isinstance(n, ast.For) and isinstance(n.iter, ast.Call) and src(n.iter.func) == "range"
             and isinstance(n.target, ast.Name)]
     st_b = [n for n in ast.walk(unpack) if isinstance(n, ast.Assign) and src(n.targets[0]).replace(" ", "") == "bufRanges[0]"]
@@ -220,123 +689,405 @@ def geometry_check(chk, mod):
                             "sender packs every block with the padded length max_block_shape[axis[0]]: when the extent is not a multiple of "
                             "the number of processes the blocks are read from the wrong offsets and the field is corrupted")
     chk.ob("G1-unpacker-offset", st_b[0] if st_b else unpack, "bufRanges[0] = slice(r*max_block, r*max_block + length_r)", oko, whyo, file=rel,
-           func="LayoutHandler._rearrange_from_buffer")
-    # buffer size in __init__
-    cands = [(v, sl) for v, (sl, ln) in fi.prods.items()]
-    envi = inline_locals(init)
-    found = None
-    for n in ast.walk(init):
-        if isinstance(n, ast.Assign) and isinstance(n.targets[0], ast.Name) and n.targets[0].id == "buffsize" \
-                and isinstance(n.value, ast.BinOp) and isinstance(n.value.op, ast.Mult):
-            found = n
-    if found is None:
-        asg = [n for n in ast.walk(init) if isinstance(n, ast.Assign) and src(n.targets[0]) == "self._buffer_size"]
-        texts = " ".join(src(expand(n.value, envi)) for n in asg)
+           func=QU)
+    _bufsize_rules(chk, rel, init, fi, envi, P)
+    return fp, fu
+
+
+def bufsize_rules(chk, mod):
+    """the buffer-size rules of LayoutHandler.__init__ on their own (G1-geometry-bufsize, G1-bufsize-max, G1-bufsize-init)"""
+    pack, init = mod.func("LayoutHandler._extract_from_source"), mod.func("LayoutHandler.__init__")
+    fp, fi = ShapeFlow(pack), ShapeFlow(init)
+    vp = _block_size_var(fp)
+    P = _canon(written_out(fp.prods[vp][0], inline_locals(pack))) if vp is not None else None
+    envi = {k: v for k, v in inline_locals(init).items() if k != "axis"}
+    _bufsize_rules(chk, mod.rel, init, fi, envi, P)
+
+
+def _bufsize_rules(chk, rel, init, fi, envi, P):
+    """LayoutHandler.__init__: the advertised size covers (padded block) x (communicator size) of every connected pair"""
+    import sympy
+    from ..core import same_expr, guards_of
+    QI = "LayoutHandler.__init__"
+    stores = [n for n in ast.walk(init) if isinstance(n, ast.Assign) and any(src(t) == "self._buffer_size" for t in n.targets)]
+
+    def in_loop(n):
+        p = parent(n)
+        while p is not None and p is not init:
+            if isinstance(p, (ast.For, ast.While)):
+                return True
+            p = parent(p)
+        return False
+    first = [n for n in stores if not in_loop(n)]
+    sinks = [n for n in stores if in_loop(n)]
+    # ---- the candidate value of each sink and whether the update is monotone
+    cands = []
+    for s_ in sinks:
+        v, mono = s_.value, None
+        if isinstance(v, ast.Call) and src(v.func) in ("max", "np.maximum", "numpy.maximum") and len(v.args) == 2 and not v.keywords:
+            a, b = v.args
+            if src(a) == "self._buffer_size":
+                v, mono = b, True
+            elif src(b) == "self._buffer_size":
+                v, mono = a, True
+        elif isinstance(v, ast.Call) and src(v.func) in ("min", "np.minimum"):
+            mono = False
+        else:
+            for test, pol, kind in guards_of(s_):
+                if kind == "if" and isinstance(test, ast.Compare) and len(test.ops) == 1:
+                    l_, r_, op = src(test.left), src(test.comparators[0]), test.ops[0]
+                    grows = (l_ == src(v) and r_ == "self._buffer_size" and isinstance(op, (ast.Gt, ast.GtE))) or \
+                            (r_ == src(v) and l_ == "self._buffer_size" and isinstance(op, (ast.Lt, ast.LtE)))
+                    shrinks = (l_ == src(v) and r_ == "self._buffer_size" and isinstance(op, (ast.Lt, ast.LtE))) or \
+                              (r_ == src(v) and l_ == "self._buffer_size" and isinstance(op, (ast.Gt, ast.GtE)))
+                    if "self._buffer_size" in (l_, r_):
+                        mono = True if (grows and pol) or (shrinks and not pol) else False if (shrinks and pol) or (grows and not pol) else None
+                        break
+            else:
+                if not any("self._buffer_size" in src(t) for t, _, _ in guards_of(s_)) and "self._buffer_size" not in src(v):
+                    mono = False          # plain overwrite: the last pair wins
+        cands.append((s_, v, mono))
+    if not sinks:
+        texts = " ".join(xsrc(n.value, envi) for n in stores)
         bad_ = None
-        if asg and "Get_size" not in texts and "max_block_shape" not in texts and "nprocs" not in texts:
-            bad_ = (f"the advertised buffer size is `{src(asg[-1].value)[:80]}`: it no longer depends on the exchange blocks. One Alltoall "
+        if stores and "Get_size" not in texts and "max_block_shape" not in texts and "nprocs" not in texts:
+            bad_ = (f"the advertised buffer size is `{src(stores[-1].value)[:80]}`: it no longer depends on the exchange blocks. One Alltoall "
                     "step needs (padded source block x padded destination block x communicator size) elements, which exceeds the "
                     "largest local block whenever an extent is not a multiple of the number of processes: arrays of exactly "
                     "bufferSize elements are then too small for the transposes")
-        chk.pat("G1-geometry-bufsize", asg[-1] if asg else init, "buffsize = np.prod(blockshape) * comm size, per connected pair", False,
-                "", bad_, file=rel, func="LayoutHandler.__init__")
-        return fp, fu
-    l, r = found.value.left, found.value.right
-    if not (isinstance(l, ast.Call) and src(l.func) == "np.prod"):
-        l, r = r, l
-    okc = isinstance(r, ast.Call) and src(r.func) == "self._subcomms[axis[0]].Get_size"
-    sl = fi.lists.get(src(l.args[0])) if isinstance(l, ast.Call) and l.args else None
-    if sl is None:
-        raise AnalysisError("C01-G1: block shape list of the buffer-size computation not recognised")
-    I = canon_product(sl, {"l1": "layout_source", "l2": "layout_dest"})
-    okg = I[0] == P[0] and I[1] == P[1] and sympy.expand(I[2] - P[2]) == 0
-    chk.ob("G1-geometry-bufsize", found, src(found)[:100], okg and okc,
-           "advertised buffer size = packed block x size of the communicator of the swapped axis" if okg and okc else
-           f"buffer-size block {I} (comm factor ok={okc}) differs from the packer's block {P}", file=rel,
-           func="LayoutHandler.__init__", facts={"init": str(I), "packer": str(P)})
-    # monotone max
-    mx = [n for n in ast.walk(init) if isinstance(n, ast.If) and src(n.test).replace(" ", "") in
-          ("buffsize>self._buffer_size", "self._buffer_size<buffsize")]
-    okm = bool(mx) and any(isinstance(a, ast.Assign) and src(a.targets[0]) == "self._buffer_size" and
-                           src(a.value) == "buffsize" for a in mx[0].body)
-    chk.ob("G1-bufsize-max", init, "self._buffer_size = max(...)", okm,
-           "buffer size is the maximum over all compatible pairs" if okm else "buffer size is not maximised over pairs",
-           file=rel, func="LayoutHandler.__init__")
-    first = [n for n in ast.walk(init) if isinstance(n, ast.Assign) and src(n.targets[0]) == "self._buffer_size"]
-    ok0 = bool(first) and ".size" in src(first[0].value)
-    chk.ob("G1-bufsize-init", init, "self._buffer_size initial value", ok0,
-           "initialised from a layout's block size (covers the single-layout case)", file=rel,
-           func="LayoutHandler.__init__", nontrivial=False)
-    return fp, fu
+        chk.pat("G1-geometry-bufsize", stores[-1] if stores else init, "buffsize = np.prod(blockshape) * comm size, per connected pair", False,
+                "", bad_, file=rel, func=QI)
+        return
+    # ---- every value the candidate can take: block product x communicator size
+    full, bad, unknown = 0, [], []
+    facts = {}
+    for s_, v, mono in cands:
+        for factors, guards in alternatives(init, v):
+            block, comm, rest = None, None, []
+            for f in factors:
+                fx = expand(f, {k: w for k, w in envi.items() if k not in fi.lists and k not in fi.prods})
+                if isinstance(f, ast.Name) and f.id in fi.prods:
+                    block = fi.prods[f.id][0]
+                elif isinstance(fx, ast.Call) and src(fx.func) in ("np.prod", "numpy.prod", "prod") and len(fx.args) == 1 \
+                        and isinstance(fx.args[0], ast.Name) and fx.args[0].id in fi.lists:
+                    block = fi.lists[fx.args[0].id]
+                elif isinstance(fx, ast.Call) and isinstance(fx.func, ast.Attribute) and fx.func.attr == "Get_size" and not fx.args:
+                    comm = src(fx.func.value)
+                elif isinstance(fx, ast.Constant) and fx.value == 1:
+                    pass
+                else:
+                    rest.append(src(f))
+            if block is None or rest:
+                unknown.append(" * ".join(src(f) for f in factors))
+                continue
+            sl = written_out(block, envi)
+            I = canon_product(sl, {"l1": "layout_source", "l2": "layout_dest"})
+            facts["init"] = str(I)
+            if P is None:
+                unknown.append("packer block not extracted")
+                continue
+            same = I[0] == P[0] and I[1] == P[1] and sympy.expand(I[2] - P[2]) == 0
+            padded = bool(I[1])
+            if comm is not None:
+                if comm.replace(" ", "") != "self._subcomms[axis[0]]":
+                    if comm.replace(" ", "") in ("self._subcomms[axis[1]]", "self._subcomms[axis[2]]"):
+                        bad.append(f"the block count is the size of `{comm}`: the exchange runs on the communicator of the swapped "
+                                   "process axis, self._subcomms[axis[0]]")
+                    else:
+                        unknown.append(comm)
+                    continue
+                if same:
+                    full += 1
+                elif _known_product(sl):
+                    bad.append(f"buffer-size block {I} differs from the packer's block {P}: the send buffer the packer fills is larger "
+                               "than the advertised size on some rank (and ranks disagree on bufferSize)")
+                else:
+                    unknown.append(str(I))
+            else:
+                # without a communicator factor: the arm for `no distributed axis is swapped` (unpadded local block) or a missing factor
+                if padded and not same and _known_product(sl):
+                    bad.append(f"buffer-size block {I} differs from the packer's block {P}")
+    okb = full >= 1 and not bad and not unknown
+    diag = None
+    if bad:
+        diag = "; ".join(dict.fromkeys(bad))
+    elif not unknown and full == 0:
+        diag = ("no connected pair's block is multiplied by the size of the communicator of the swapped axis: one Alltoall step holds a "
+                "padded block for every rank of that communicator, so the advertised size is too small by that factor")
+    chk.pat("G1-geometry-bufsize", sinks[0], src(sinks[0])[:100], okb,
+            "advertised buffer size = packed block x size of the communicator of the swapped axis", diag, file=rel, func=QI,
+            facts=dict(facts, packer=str(P)))
+    # ---- monotone maximum over the pairs
+    monos = [m for _, _, m in cands]
+    okm = all(m is True for m in monos)
+    badm = None
+    if any(m is False for m in monos):
+        s_ = [c[0] for c in cands if c[2] is False][0]
+        badm = (f"`{src(s_)[:70]}` does not keep the larger of the old and the new value: the advertised size is that of the last (or the "
+                "smallest) connected pair, too small for the transposes of the others")
+    chk.pat("G1-bufsize-max", sinks[0], "self._buffer_size = max(...)", okm, "buffer size is the maximum over all compatible pairs", badm,
+            file=rel, func=QI)
+    # ---- initial value: a local block (covers the single-layout case)
+    ok0, bad0 = None, None
+    if first:
+        t0 = xsrc(first[0].value, envi)
+        if ".size" in t0 or "max_block_size" in t0:
+            ok0 = True
+        elif isinstance(first[0].value, ast.Constant):
+            bad0 = (f"the advertised size starts from the constant {first[0].value.value!r}: a handler with a single layout (no connected pair) "
+                    "advertises a size that does not cover its own block" +
+                    (", and size 0 marks a plot-only rank whose transposes do nothing" if first[0].value.value == 0 else ""))
+    chk.pat("G1-bufsize-init", first[0] if first else init, "self._buffer_size initial value", ok0,
+            "initialised from a layout's block size (covers the single-layout case)", bad0, file=rel, func=QI, nontrivial=False)
 
 
 def comm_axis_check(chk, mod):
     """G2: pack, exchange and unpack of one step use the same axis object and the communicator of the swapped axis"""
     rel = mod.rel
+    dpk, dup = mod.func("LayoutHandler._extract_from_source"), mod.func("LayoutHandler._rearrange_from_buffer")
+    AX = "self._get_swap_axes(layout_source, layout_dest)"
     for q in ("LayoutHandler._transpose", "LayoutHandler._transpose_source_intact"):
+        if not mod.has(q):
+            chk.ob("G2-comm-axis-agreement", mod.cls(CLS), f"pack/unpack in {q.split('.')[-1]}", None,
+                   f"{q} does not exist any more: the single-step routines were restructured", file=rel, func=q)
+            continue
         fn = mod.func(q)
         chk.functions.add(f"{rel}:{q}")
         env = inline_locals(fn)
-        calls = {c.func.attr: c for c in ast.walk(fn) if isinstance(c, ast.Call) and isinstance(c.func, ast.Attribute)
-                 and c.func.attr in ("_extract_from_source", "_rearrange_from_buffer")}
-        if len(calls) != 2:
-            raise AnalysisError(f"C01-G2: pack/unpack calls not found in {q}")
-        pk, up = calls["_extract_from_source"], calls["_rearrange_from_buffer"]
-        same_axis = src(pk.args[4]) == src(up.args[4]) == "axis"
-        cenv = {k: v for k, v in env.items() if k == "comm"}
-        comm_p, comm_u = src(expand(pk.args[5], cenv)), src(expand(up.args[5], cenv))
-        okc = comm_p == comm_u == "self._subcomms[axis[0]]"
-        lay = src(pk.args[2]) == src(up.args[2]) == "layout_source" and src(pk.args[3]) == src(up.args[3]) == "layout_dest"
-        ax = env.get("axis")
-        okax = ax is not None and src(ax) == "self._get_swap_axes(layout_source, layout_dest)"
-        chk.ob("G2-comm-axis-agreement", fn, f"pack/unpack in {q.split('.')[-1]}", same_axis and okc and lay and okax,
-               "pack and unpack get the same axis triple, the same (source,dest) layouts, and the communicator "
-               "of the swapped process axis" if same_axis and okc and lay and okax else
-               f"axis same={same_axis}, comm pack={comm_p} unpack={comm_u}, layouts ok={lay}, axis def ok={okax}",
-               file=rel, func=q)
-        # the unpack reads what the pack wrote: 2nd arg of pack == 1st arg of unpack
-        okb = src(pk.args[1]) == src(up.args[0])
-        chk.ob("G2-pack-buffer-is-send-buffer", fn, f"{src(pk.args[1])} / {src(up.args[0])}", okb,
-               "the buffer filled by the packer is the send buffer of the exchange", file=rel, func=q)
+        pks = [c for c in ast.walk(fn) if isinstance(c, ast.Call) and isinstance(c.func, ast.Attribute) and c.func.attr == "_extract_from_source"]
+        ups = [c for c in ast.walk(fn) if isinstance(c, ast.Call) and isinstance(c.func, ast.Attribute) and c.func.attr == "_rearrange_from_buffer"]
+        what = f"pack/unpack in {q.split('.')[-1]}"
+        if len(pks) != 1 or len(ups) != 1:
+            chk.ob("G2-comm-axis-agreement", fn, what, None,
+                   f"{q} does not call the packer and the unpacker exactly once each any more ({len(pks)}/{len(ups)} calls): the agreement "
+                   "of their arguments cannot be compared here", file=rel, func=q)
+            continue
+        pa, ua = call_args(pks[0], dpk), call_args(ups[0], dup)
+        need = ("layout_source", "layout_dest", "axis", "comm")
+        if pa is None or ua is None or any(k not in pa or k not in ua for k in need) or "tobuffer" not in pa or "data" not in ua:
+            chk.ob("G2-comm-axis-agreement", fn, what, None, "arguments of the pack/unpack calls could not be matched with the parameters",
+                   file=rel, func=q)
+            continue
+        axp, axu = xsrc(pa["axis"], env), xsrc(ua["axis"], env)
+        cenv = {k: v for k, v in env.items() if k != "axis"}
+        cp_, cu_ = xsrc(pa["comm"], cenv), xsrc(ua["comm"], cenv)
+        lay_p = (src(pa["layout_source"]), src(pa["layout_dest"]))
+        lay_u = (src(ua["layout_source"]), src(ua["layout_dest"]))
+        bad, und = [], []
+        if axp != axu:
+            bad.append(f"the packer gets the axis triple `{axp}`, the unpacker `{axu}`")
+        if lay_p != lay_u:
+            bad.append(f"the packer is told the layouts {lay_p}, the unpacker {lay_u}")
+        elif lay_p == ("layout_dest", "layout_source"):
+            bad.append("source and destination layout are passed in exchanged order")
+        elif lay_p != ("layout_source", "layout_dest"):
+            und.append(f"layouts {lay_p}")
+        if axp == axu:
+            a0 = ast.parse(axp, mode="eval").body
+            if axp.replace(" ", "") == AX.replace(" ", ""):
+                pass
+            elif axp.replace(" ", "") == "self._get_swap_axes(layout_dest,layout_source)":
+                bad.append("the axis triple is computed for the opposite direction (destination, source): axis[1] and axis[2] exchange roles")
+            elif isinstance(a0, ast.Subscript) and isinstance(a0.value, ast.Attribute) and isinstance(a0.value.value, ast.Name) \
+                    and a0.value.value.id == "self":
+                r = _axis_table(chk, mod, a0)
+                if r is True:
+                    pass
+                elif r:
+                    bad.append(r)
+                else:
+                    und.append(f"axis triple read from `{src(a0.value)}`, whose construction was not recognised")
+            else:
+                und.append(f"axis triple `{axp}`")
+        import re
+        if cp_ != cu_:
+            bad.append(f"the packer is given the communicator `{cp_}`, the exchange/unpack `{cu_}`")
+        else:
+            m = re.fullmatch(r"self\._subcomms\[axis\[(\d)\]\]", cp_.replace(" ", ""))
+            if m and m.group(1) != "0":
+                bad.append(f"the exchange runs on `{cp_}`: axis[{m.group(1)}] is a layout position, the communicator of the swapped "
+                           "process axis is self._subcomms[axis[0]]")
+            elif not m:
+                und.append(f"communicator `{cp_}`")
+        ok = not bad and not und
+        chk.pat("G2-comm-axis-agreement", fn, what, ok,
+                "pack and unpack get the same axis triple, the same (source,dest) layouts, and the communicator of the swapped process axis",
+                "; ".join(bad) or None, file=rel, func=q)
+        # the unpack reads what the pack wrote: the buffer the packer fills is the send buffer of the exchange
+        b1, b2 = xsrc(pa["tobuffer"], env), xsrc(ua["data"], env)
+        params = {a.arg for a in fn.args.args}
+        okb = b1 == b2
+        badb = None
+        if not okb and b1 in params and b2 in params:
+            badb = (f"the packer fills `{b1}` but the exchange sends `{b2}`: the blocks that are exchanged are not the ones that were packed")
+        chk.pat("G2-pack-buffer-is-send-buffer", fn, f"{b1} / {b2}", okb, "the buffer filled by the packer is the send buffer of the exchange",
+                badb, file=rel, func=q)
+
+
+def _axis_table(chk, mod, sub):
+    """the axis triple is read from a table `self.T[(source name, dest name)]` filled by the constructor: every entry must hold the
+    triple computed for ITS direction.  -> True / diagnosis string / None (not recognised)"""
+    attr = src(sub.value)
+    key = sub.slice
+    if not (isinstance(key, ast.Tuple) and [src(e) for e in key.elts] == ["layout_source.name", "layout_dest.name"]):
+        return None
+    init = mod.func("LayoutHandler.__init__")
+    env = inline_locals(init)
+    # (name variable, layout variable) pairs of the constructor's loops
+    lay_of = {}
+    for n in ast.walk(init):
+        if isinstance(n, ast.For):
+            for t in ast.walk(n.target):
+                if isinstance(t, ast.Tuple) and len(t.elts) == 2 and all(isinstance(e, ast.Name) for e in t.elts):
+                    lay_of[t.elts[0].id] = t.elts[1].id
+    stores = [n for n in ast.walk(init) if isinstance(n, ast.Assign) and isinstance(n.targets[0], ast.Subscript)
+              and src(n.targets[0].value) == attr]
+    if not stores:
+        return None
+    seen = 0
+    for s_ in stores:
+        k = s_.targets[0].slice
+        v = expand(s_.value, env)
+        if not (isinstance(k, ast.Tuple) and len(k.elts) == 2 and all(isinstance(e, ast.Name) and e.id in lay_of for e in k.elts)):
+            return None
+        if not (isinstance(v, ast.Call) and src(v.func) == "self._get_swap_axes" and len(v.args) == 2 and all(isinstance(a, ast.Name) for a in v.args)):
+            return None
+        want = [lay_of[e.id] for e in k.elts]
+        got = [a.id for a in v.args]
+        if got == want[::-1] and got != want:
+            return (f"`{src(s_)}` stores under the direction ({src(k.elts[0])} -> {src(k.elts[1])}) the axis triple computed for the opposite "
+                    f"direction ({got[0]} -> {got[1]}): axis[1] is a position in the source ordering and axis[2] one in the destination "
+                    "ordering, so they exchange roles when the direction is reversed - the packer splits and the unpacker places along the wrong axes")
+        if got != want:
+            return None
+        seen += 1
+    return True if seen >= 2 else None
 
 
 def swap_axes_def_check(chk, mod):
     """axis triple of _get_swap_axes matches its documented roles (positions in source/dest orderings)"""
+    import re
     rel = mod.rel
-    fn = mod.func("LayoutHandler._get_swap_axes")
-    chk.functions.add(f"{rel}:LayoutHandler._get_swap_axes")
-    apps = [src(c.args[0]) for c in ast.walk(fn) if isinstance(c, ast.Call) and isinstance(c.func, ast.Attribute)
-            and c.func.attr == "append" and src(c.func.value) == "axis"]
+    Q = "LayoutHandler._get_swap_axes"
+    fn = mod.func(Q)
+    chk.functions.add(f"{rel}:{Q}")
     env = inline_locals(fn)
-    want = ["i", "layout_source.dims_order.index(dest_dim)", "layout_dest.dims_order.index(source_dim)"]
-    ok = apps == want
-    sd, dd = None, None
-    for n in ast.walk(fn):
-        if isinstance(n, ast.Assign) and isinstance(n.targets[0], ast.Name):
-            if n.targets[0].id == "source_dim":
-                sd = src(n.value)
-            if n.targets[0].id == "dest_dim":
-                dd = src(n.value)
-    ok = ok and sd == "layout_source.dims_order[i]" and dd == "layout_dest.dims_order[i]"
+    what = "axis = [i, src.index(dest_dim), dst.index(source_dim)]"
+    good = ("axis[0] = swapped process axis, axis[1] = position in the source of the dimension distributed in the "
+            "destination, axis[2] = position in the destination of the dimension distributed in the source")
     loops = [n for n in ast.walk(fn) if isinstance(n, ast.For)]
-    okl = bool(loops) and src(loops[0].iter) == "enumerate(self._nprocsList)"
-    guard = [n for n in ast.walk(fn) if isinstance(n, ast.If)]
-    okg = bool(guard) and src(guard[0].test).replace("(", "").replace(")", "") in (
-        "n > 1 and source_dim != dest_dim", "source_dim != dest_dim and n > 1")
-    chk.ob("G2-swap-axes-roles", fn, "axis = [i, src.index(dest_dim), dst.index(source_dim)]", ok and okl and okg,
-           "axis[0] = swapped process axis, axis[1] = position in the source of the dimension distributed in the "
-           "destination, axis[2] = position in the destination of the dimension distributed in the source"
-           if ok and okl and okg else f"unexpected definition: appends={apps}, source_dim={sd}, dest_dim={dd}, "
-           f"loop ok={okl}, guard ok={okg}", file=rel, func="LayoutHandler._get_swap_axes")
+    rets = [n for n in ast.walk(fn) if isinstance(n, ast.Return) and n.value is not None]
+    lst = src(rets[0].value) if len(rets) == 1 and isinstance(rets[0].value, ast.Name) else None
+    iv = None
+    if len(loops) == 1 and isinstance(loops[0].iter, ast.Call) and src(loops[0].iter.func) == "enumerate" and len(loops[0].iter.args) == 1 \
+            and isinstance(loops[0].target, ast.Tuple) and len(loops[0].target.elts) == 2 and all(isinstance(e, ast.Name) for e in loops[0].target.elts):
+        iv, nv = (e.id for e in loops[0].target.elts)
+    if iv is None or lst is None:
+        chk.ob("G2-swap-axes-roles", fn, what, None, "the loop over the process-grid directions / the returned list was not recognised",
+               file=rel, func=Q)
+        return
+    # what is added to the list inside the loop, in order: append(x) / extend([x, y]) / lst += [x, y]
+    entries, apps, other = [], [], []
+    for n in ast.walk(loops[0]):
+        if isinstance(n, ast.Call) and isinstance(n.func, ast.Attribute) and src(n.func.value) == lst:
+            if n.func.attr == "append" and len(n.args) == 1:
+                entries.append((n.lineno, n.col_offset, [n.args[0]]))
+                apps.append(n)
+            elif n.func.attr == "extend" and len(n.args) == 1 and isinstance(n.args[0], (ast.List, ast.Tuple)):
+                entries.append((n.lineno, n.col_offset, list(n.args[0].elts)))
+                apps.append(n)
+            elif n.func.attr in ("extend", "insert", "pop", "remove", "clear", "__iadd__"):
+                other.append(n)
+        elif isinstance(n, ast.AugAssign) and src(n.target) == lst:
+            if isinstance(n.op, ast.Add) and isinstance(n.value, (ast.List, ast.Tuple)):
+                entries.append((n.lineno, n.col_offset, list(n.value.elts)))
+                apps.append(n)
+            else:
+                other.append(n)
+    other += [n for n in ast.walk(fn) if isinstance(n, ast.Assign) and any(src(t) == lst for t in n.targets) and
+              not (isinstance(n.value, ast.List) and not n.value.elts)]
+    entries.sort(key=lambda x: (x[0], x[1]))
+    items = [e for _, _, es in entries for e in es]
+    xenv = {k: v for k, v in env.items() if k not in (iv, nv, lst)}
+    got = [xsrc(e, xenv).replace(" ", "") for e in items]
+    want = [iv, f"layout_source.dims_order.index(layout_dest.dims_order[{iv}])", f"layout_dest.dims_order.index(layout_source.dims_order[{iv}])"]
+    vocab = re.compile(rf"{iv}|layout_(source|dest)\.dims_order\.index\(layout_(source|dest)\.dims_order\[{iv}\]\)|layout_(source|dest)\.dims_order\[{iv}\]")
+    bad, und = [], []
+    if other or src(loops[0].iter.args[0]) not in ("self._nprocsList", "self._nprocs"):
+        und.append("list construction / loop range")
+    if got != want:
+        if all(vocab.fullmatch(g) for g in got) and not other:
+            if len(got) == 2 and got == want[:2]:
+                bad.append("the triple lacks axis[2], the position IN THE DESTINATION ordering of the dimension that is distributed in the source: "
+                           "a consumer that addresses the destination view can then only use axis[1], a position in the SOURCE ordering, which is "
+                           "the same number only when the two layouts differ by a plain exchange of two axes")
+            else:
+                bad.append(f"the entries appended are {[xsrc(e, xenv) for e in items]}, expected "
+                           f"[{iv}, layout_source.dims_order.index(dest_dim), layout_dest.dims_order.index(source_dim)]: the packer/unpacker "
+                           "read them with these roles")
+        else:
+            und.append(f"appended entries {got}")
+    # the guard: a direction counts when it is distributed (n > 1) and carries different dimensions in the two layouts
+    gs = [g for c in apps for g in [guards_if(c, loops[0])]]
+    okg = None
+    for g in gs[:1]:
+        conj = sorted(xsrc(x, xenv).replace(" ", "").replace("(", "").replace(")", "") for x in g)
+        w1 = f"layout_source.dims_order[{iv}]!=layout_dest.dims_order[{iv}]"
+        w1b = f"layout_dest.dims_order[{iv}]!=layout_source.dims_order[{iv}]"
+        rest = [c for c in conj if c not in (w1, w1b)]
+        if len(conj) == 2 and len(rest) == 1 and rest[0] in (f"{nv}>1", f"1<{nv}", f"{nv}>=2", f"{nv}!=1"):
+            okg = True
+        elif any(c in (w1.replace("!=", "=="), w1b.replace("!=", "==")) for c in conj):
+            okg = False
+            bad.append("the guard selects the directions whose dimension is the SAME in both layouts")
+    if len({tuple(sorted(src(x) for x in g)) for g in gs}) > 1:
+        okg = None
+        und.append("the entries are added under different guards")
+    if okg is None:
+        und.append("guard of the appends")
+    ok = not bad and not und
+    chk.pat("G2-swap-axes-roles", fn, what, ok, good, "; ".join(bad) or None, file=rel, func=Q)
+
+
+def guards_if(node, stop):
+    """conjuncts of the `if` tests a node is positively control dependent on, up to `stop`"""
+    from ..core import guards_of
+    out = []
+    for test, pol, kind in guards_of(node, stop=stop):
+        if kind != "if" or not pol:
+            return [ast.Constant(value="<unrecognised guard>")]
+        if isinstance(test, ast.BoolOp) and isinstance(test.op, ast.And):
+            out += list(test.values)
+        else:
+            out.append(test)
+    return out
+
+
+def _ignores_extent_one(comp):
+    """does LayoutHandler.compatible skip the process-grid directions of extent 1 when it counts the directions whose dimension
+    changes?  True / False (every direction counts) / None (not recognised)"""
+    loops = [n for n in ast.walk(comp) if isinstance(n, ast.For) and isinstance(n.iter, ast.Call) and src(n.iter.func) == "enumerate"
+             and isinstance(n.target, ast.Tuple) and len(n.target.elts) == 2 and isinstance(n.target.elts[1], ast.Name)]
+    if len(loops) != 1:
+        return None
+    nv = loops[0].target.elts[1].id
+    conj = []
+    for n in ast.walk(loops[0]):
+        if isinstance(n, ast.If):
+            conj += list(n.test.values) if isinstance(n.test, ast.BoolOp) and isinstance(n.test.op, ast.And) else [n.test]
+    about_n = [c for c in conj if any(isinstance(x, ast.Name) and x.id == nv for x in ast.walk(c))]
+    if not about_n:
+        return False
+    if all(src(c).replace(" ", "").replace("(", "").replace(")", "") in (f"{nv}>1", f"1<{nv}", f"{nv}!=1", f"{nv}>=2", f"2<={nv}") for c in about_n):
+        return True
+    return None
 
 
 def swap_index_check(chk, mod, fp, fu):
     """G3: after positions 0 and axis[0] of a list were exchanged, a subscript by the
     pre-swap position axis[1] is only valid when axis[1] is neither 0 nor axis[0]."""
     rel = mod.rel
-    comp = mod.func("LayoutHandler.compatible")
-    ignores_extent1 = any(isinstance(n, ast.BoolOp) and any(src(v).replace(" ", "") in ("n>1", "1<n") for v in n.values)
-                          for n in ast.walk(comp))
+    ignores_extent1 = _ignores_extent_one(mod.func("LayoutHandler.compatible"))
     count = 0
     for q, flow in (("LayoutHandler._extract_from_source", fp), ("LayoutHandler._rearrange_from_buffer", fu)):
         fnode = mod.func(q)
@@ -368,7 +1119,19 @@ def swap_index_check(chk, mod, fp, fu):
                        "pre-swap position is mapped through the exchanged ordering before it subscripts the exchanged list",
                        file=rel, func=q, nontrivial=remapped)
                 continue
+            kx = xsrc(node.targets[0].slice, env).replace(" ", "")
+            if kx not in ("axis[1]", "axis[2]"):
+                chk.ob("G3-axis-role-after-swap", node, src(node)[:100], None,
+                       f"`{lname}` had positions {sorted(swapped_pos)} exchanged and is then subscripted by `{src(node.targets[0].slice)}`: "
+                       "whether this is a pre-swap or a post-swap position was not recognised", file=rel, func=q)
+                continue
             # k is a pre-swap (source-axis) position
+            if ignores_extent1 is None:
+                chk.ob("G3-axis-role-after-swap", node, src(node)[:100], None,
+                       f"`{lname}` had positions {sorted(swapped_pos)} exchanged, then is subscripted by the pre-swap position `{k}`: whether "
+                       "compatible() lets this position coincide with an exchanged one (process-grid directions of extent 1) was not recognised",
+                       file=rel, func=q)
+                continue
             guarded = not ignores_extent1
             chk.ob("G3-axis-role-after-swap", node, src(node)[:100], guarded,
                    f"`{lname}` had positions {sorted(swapped_pos)} exchanged, then is subscripted by the pre-swap "
@@ -378,7 +1141,64 @@ def swap_index_check(chk, mod, fp, fu):
                                           "` == 0 != axis[0] is reachable (grid (1,n), e.g. poloidal->flux_surface): "
                                           "the wrong axis of the block is restricted"), file=rel, func=q)
     if count < 2:
-        raise AnalysisError("C01-G3: fewer than 2 post-swap subscripts found (rule would pass vacuously)")
+        chk.ob("G3-axis-role-after-swap", mod.func("LayoutHandler._extract_from_source"), "subscripts of the exchanged lists", None,
+               f"only {count} subscript(s) of a list whose positions 0 and axis[0] were exchanged found in the packer/unpacker "
+               "(2 expected): the reordering idiom changed, the rule cannot decide", file=rel, func="LayoutHandler._extract_from_source")
+    axis_index_space(chk, mod, fp, fu)
+
+
+def axis_index_space(chk, mod, fp, fu):
+    """G3-axis-index-space: axis[0] is a process axis (the same position in both layouts), axis[1] is a position in the SOURCE
+    ordering, axis[2] a position in the DESTINATION ordering: each may only subscript a table of a layout it is a position of"""
+    import re
+    rel = mod.rel
+    allowed = {"0": {"layout_source", "layout_dest"}, "1": {"layout_source"}, "2": {"layout_dest"}}
+    n_sites = 0
+    for q, flow in (("LayoutHandler._extract_from_source", fp), ("LayoutHandler._rearrange_from_buffer", fu)):
+        fn = mod.func(q)
+        # lists derived from a layout's shape (flow-insensitive: a name is only counted when all its definitions agree)
+        owner = {}
+        for n in ast.walk(fn):
+            if isinstance(n, ast.Assign) and len(n.targets) == 1 and isinstance(n.targets[0], ast.Name):
+                m = re.search(r"\b(layout_source|layout_dest)\.(?:shape|dims_order)\b", src(n.value))
+                via = [x.id for x in ast.walk(n.value) if isinstance(x, ast.Name) and x.id in owner]
+                o = m.group(1) if m else (owner[via[0]] if len(via) == 1 and isinstance(n.value, (ast.ListComp, ast.Call)) else None)
+                nm = n.targets[0].id
+                if isinstance(n.value, (ast.ListComp, ast.Call)) and (isinstance(n.value, ast.ListComp) or src(n.value.func) in ("list", "tuple")):
+                    owner[nm] = o if nm not in owner or owner[nm] == o else None
+        for n in ast.walk(fn):
+            k = cont = None
+            if isinstance(n, ast.Subscript) and re.fullmatch(r"axis\[[012]\]", src(n.slice).replace(" ", "")):
+                k = src(n.slice).replace(" ", "")[5]
+                c = n.value
+                if isinstance(c, ast.Attribute) and isinstance(c.value, ast.Name) and c.value.id in ("layout_source", "layout_dest") \
+                        and c.attr in ("shape", "max_block_shape", "dims_order", "starts", "ends", "nprocs", "fullShape"):
+                    cont = c.value.id
+                elif isinstance(c, ast.Name) and owner.get(c.id):
+                    cont = owner[c.id]
+            elif isinstance(n, ast.Call) and isinstance(n.func, ast.Attribute) and n.func.attr in ("mpi_starts", "mpi_lengths") \
+                    and len(n.args) == 1 and re.fullmatch(r"axis\[[012]\]", src(n.args[0]).replace(" ", "")) \
+                    and isinstance(n.func.value, ast.Name) and n.func.value.id in ("layout_source", "layout_dest"):
+                k = src(n.args[0]).replace(" ", "")[5]
+                cont = n.func.value.id
+            if k is None or cont is None:
+                continue
+            n_sites += 1
+            ok = cont in allowed[k]
+            st = n
+            while not isinstance(st, ast.stmt):
+                st = parent(st)
+            role = {"1": "a position in the SOURCE ordering (where the dimension that becomes distributed sits)",
+                    "2": "a position in the DESTINATION ordering (where the dimension that was distributed sits)"}.get(k, "")
+            chk.ob("G3-axis-index-space", n, src(n)[:80], ok,
+                   f"axis[{k}] subscripts a table of {cont}" if ok else
+                   f"`{src(n)[:60]}` (in `{src(st)[:70]}`) subscripts a table of {cont} by axis[{k}], which is {role}: the two coincide only when "
+                   "the layouts differ by a plain exchange of two axes, otherwise another axis of the block is cut / tested",
+                   file=rel, func=q, nontrivial=(k != "0"))
+    if n_sites < 6:
+        chk.ob("G3-axis-index-space", mod.func("LayoutHandler._extract_from_source"), "tables subscripted by axis[k]", None,
+               f"only {n_sites} table subscripts by axis[k] found in the packer/unpacker: the idiom changed", file=rel,
+               func="LayoutHandler._extract_from_source")
 
 
 def run(chk):
@@ -406,16 +1226,73 @@ def run(chk):
     chk.floor("D1-source-intact", 7)
 
 
+def engine(chk, rule, node, what, fn_, *a, file=None, func=None, **k):
+    """run an engine-backed rule; when the engine cannot EXTRACT what it needs (AnalysisError) the rule is undecided and the
+    remaining rules still run (so that a violation found elsewhere is still reported)"""
+    try:
+        return fn_(*a, **k)
+    except AnalysisError as e:
+        chk.ob(rule, node, what, None, f"cannot decide: {e}", file=file, func=func)
+        return None
+
+
+ARRAYS = ("source", "dest", "buf", "data", "tobuffer")
+
+
+def distinct_buffers(chk, mod, cls=CLS):
+    """D1-distinct-buffers: the transposes assume that the arrays they are given do not overlap (pack reads one while it fills the
+    other).  No routine may bind one array parameter to another, nor pass the same array for two array parameters of a routine."""
+    rel = mod.rel
+    meths = {m.name: m for m in mod.cls(cls).body if isinstance(m, ast.FunctionDef)}
+    n = 0
+    for name, m in meths.items():
+        params = [a.arg for a in m.args.args if a.arg in ARRAYS]
+        if len(params) < 2:
+            continue
+        n += 1
+        bad = []
+        for st in ast.walk(m):
+            if isinstance(st, ast.Assign) and len(st.targets) == 1 and isinstance(st.targets[0], ast.Name) and st.targets[0].id in params \
+                    and isinstance(st.value, ast.Name) and st.value.id in params and st.value.id != st.targets[0].id:
+                bad.append((st, f"`{src(st)}` makes the parameter `{st.targets[0].id}` denote the same array as `{st.value.id}`: every routine below "
+                            "assumes source, dest and buf do not overlap - the packer then writes the padded send blocks into the array it is "
+                            "still reading, later blocks are built from overwritten data"))
+            if isinstance(st, ast.Call) and isinstance(st.func, ast.Attribute) and isinstance(st.func.value, ast.Name) and st.func.value.id == "self" \
+                    and st.func.attr in meths:
+                cm = call_args(st, meths[st.func.attr])
+                if cm is None:
+                    continue
+                arr = [(k, v.id) for k, v in cm.items() if k in ARRAYS and isinstance(v, ast.Name)]
+                seen = {}
+                for k, v in arr:
+                    if v in seen:
+                        bad.append((st, f"`{src(st)[:80]}` passes the array `{v}` both as `{seen[v]}` and as `{k}` of {st.func.attr}: the two are "
+                                    "assumed not to overlap (one is read while the other is written)"))
+                    seen.setdefault(v, k)
+        chk.ob("D1-distinct-buffers", bad[0][0] if bad else m, f"{cls}.{name}: array parameters stay distinct", not bad,
+               "no array parameter is bound to another one and no call passes one array for two array parameters" if not bad else
+               "; ".join(dict.fromkeys(b for _, b in bad)), file=rel, func=f"{cls}.{name}")
+    if n < 3:
+        chk.ob("D1-distinct-buffers", mod.cls(cls), f"routines of {cls} with several array parameters", None,
+               f"only {n} routines with two or more of the array parameters {ARRAYS} found", file=rel, func=cls)
+
+
 def handler_contract(chk, mod):
     """the element-placement part of the handler's contract: geometry, axis roles, permutations, read-only route map"""
+    distinct_buffers(chk, mod)
     fp, fu = geometry_check(chk, mod)
     comm_axis_check(chk, mod)
     swap_axes_def_check(chk, mod)
     swap_index_check(chk, mod, fp, fu)
-    permcheck.check_layout_handler(chk, mod)
+    engine(chk, "P1-transpose-permutation", mod.func(f"{CLS}._transpose"), "permutation typing of the handler's array stores",
+           permcheck.check_layout_handler, chk, mod, file=U.LAYOUT, func=f"{CLS}._transpose")
     # the cached route map is only read by the transposes
     from .. import lints
     for q in (f"{CLS}.transpose", f"{CLS}._transposeRedirect", f"{CLS}._transposeRedirect_source_intact"):
+        if not mod.has(q):
+            chk.ob("G2-no-shared-mutation", mod.cls(CLS), f"{q} vs the cached route map", None,
+                   f"{q} does not exist any more: the multi-step routines were restructured", file=U.LAYOUT, func=q)
+            continue
         f_ = mod.func(q)
         muts = lints.shared_state_mutations(f_, lambda s_: s_.startswith("self._route_map") or s_.startswith("self._layouts") or s_.startswith("self._handlers"))
         chk.ob("G2-no-shared-mutation", f_, f"{q} vs the cached route map", not muts,
@@ -425,6 +1302,9 @@ def handler_contract(chk, mod):
     # the Layout objects are shared by every transpose: the packer/unpacker never write through something a Layout hands out
     for q in (f"{CLS}._extract_from_source", f"{CLS}._rearrange_from_buffer", f"{CLS}._transpose", f"{CLS}._transpose_source_intact",
               f"{CLS}._get_swap_axes"):
+        if not mod.has(q):
+            chk.ob("G2-no-shared-mutation", mod.cls(CLS), f"{q} vs the Layout objects", None, f"{q} does not exist any more", file=U.LAYOUT, func=q)
+            continue
         f_ = mod.func(q)
         muts = lints.shared_state_mutations(f_, lambda s_: s_.startswith(("layout_source.", "layout_dest.", "self._layouts", "self._route_map")))
         chk.ob("G2-no-shared-mutation", muts[0][0] if muts else f_, f"{q} vs the Layout objects", not muts,
